@@ -185,6 +185,7 @@ _docs_ob("four-lines", True, True, tiers=("thorough",))
 import re as _re
 
 ADM_LINES = ["alpha bravo", "@note", "@note charlie", "  @warning delta echo", "@Bug", "@endnote", "foxtrot @endnote golf", "@endbug",
+             "@endnote kilo lima", "  @endwarning mike", "@endbug   november",
              "", "    indented hotel", "- list item", "@todo india", "mail foo@bugzilla.org now"]
 _START = _re.compile(r"^\s*@(note|warning|todo|bug|history)\b", _re.I)
 _END = _re.compile(r"@end(note|warning|todo|bug|history)\b", _re.I)
